@@ -317,12 +317,17 @@ MutSet(id) ==
     /\ LET c == heap[id]  nid == NextId(heap)
            e == <<IF IsList(c.n) THEN IKey(Len(c.py)) ELSE SKey("zz"), nid>>
        IN heap' = [heap EXCEPT ![id].kids = Append(@, e), ![id].py = Append(@, e)] @@ (nid :> NewChildCell(c, FreshLeaf))
-\* del container[first]
+\* del container[first].  A list shifts the remaining elements down with self[i-1] = self[i] (list.py:51-58), i.e. through
+\* set_child: every one of them is adopted again by the list
 MutDel(id) ==
     /\ MutCommon(id, "MutDel") /\ IsComposed(heap[id].n) /\ Len(heap[id].kids) > 0 /\ heap[id].kids = heap[id].py
-    /\ LET rest == Tail(heap[id].kids)
-           r2   == IF IsList(heap[id].n) THEN [i \in 1..Len(rest) |-> <<IKey(i - 1), rest[i][2]>>] ELSE rest
-       IN heap' = [heap EXCEPT ![id].kids = r2, ![id].py = r2]
+    /\ LET c    == heap[id]
+           rest == Tail(c.kids)
+           r2   == IF IsList(c.n) THEN [i \in 1..Len(rest) |-> <<IKey(i - 1), rest[i][2]>>] ELSE rest
+           F[i \in 0..Len(rest)] ==
+               IF i = 0 \/ ~IsList(c.n) THEN heap
+               ELSE Store(F[i-1], rest[i][2], Adopt(TreeOf(F[i-1], rest[i][2]), ChildKw(c.n), FALSE, PrNone))
+       IN heap' = [F[Len(rest)] EXCEPT ![id].kids = r2, ![id].py = r2]
 \* container.clear()
 MutClear(id) ==
     /\ MutCommon(id, "MutClear") /\ IsComposed(heap[id].n) /\ Len(heap[id].py) > 0
